@@ -168,7 +168,7 @@ def jobs(pid, tier, seed):
                 js += J(pid, c, 2, 200000)
             js += J(pid, "asan", 4, 50000)
     elif pid in ("C02", "C11"):
-        js += J(pid, "std-rel", 6, 4000 if q else 1000000)
+        js += J(pid, "std-rel", 6, 4000 if q else 1000000, huge=1)  # + the single calls on > 4 GiB
         js += J(pid, "std-dbg", 6, 3000 if q else 300000)
         js += J(pid, "portable-rel", 2, 2000 if q else 100000)
         js += J(pid, "portable-dbg", 2, 1000 if q else 30000)
